@@ -232,7 +232,7 @@ PROPS["C18"] = {
     "level_note": "Assumed: vstd HashMap model + key model for KeyId/Hash, IndexSet as a finite set, Sha256 ghost model, and the helper contracts of MerkleBlob (get_leaf_by_key consistency between blob bytes and cache, mark_lineage_as_dirty/insert framing). batch_insert, delete, tree-shape invariants over the blob bytes, dirty-hash propagation and reload equivalence are not under contract.",
     "components": [V("blob_cache"), N("native_datalayer_ground", "datalayer_ground"),
                    B("bounded_datalayer_histories_4", "datalayer_histories:4",
-                     "BOUNDED stand-in for MerkleBlob::{insert, delete, batch_insert} (outside Verus's subset): every operation history of length <= 4 over a 21-operation alphabet (keys 1..8; duplicate keys and hashes, deletes down to 0/1/2 leaves, free-index reuse, batches of 0..5) on the real crate against a plain map: content, check_integrity, failed-op-unchanged, reload, independent root, inclusion proofs", tier="quick-only"),
+                     "BOUNDED stand-in for MerkleBlob::{insert, delete, batch_insert} (outside Verus's subset): every operation history of length <= 4 over a 21-operation alphabet (keys 1..8; duplicate keys and hashes, deletes down to 0/1/2 leaves, free-index reuse, batches of 0..5) on the real crate against a plain map with unique keys and hashes: the verdict of every insert / delete / upsert / batch_insert, content, check_integrity, failed-op-unchanged, reload, independent root, inclusion proofs", tier="quick-only"),
                    B("bounded_datalayer_histories_6", "datalayer_histories:6",
                      "BOUNDED: as above with history length <= 6", tier="thorough-only", timeout=3600)],
     "assumptions": ["HashMap/IndexSet models", "blob-bytes/cache consistency as assumed helper contracts of MerkleBlob"],
